@@ -1,0 +1,273 @@
+//go:build verif
+
+package mp4
+
+// Property C01 (agent c01c): body-trace functions of box types Trun .. Senc; see verif_contracts_c01.go for the method.
+
+// ---- trun
+//@ spec opt32(c bool, v uint32, t uint64) uint64 = ite(c, trApp(t, chU(32, v)), t)
+//@ spec rec trunSample(fl uint32, s []Sample, k int, t uint64) uint64 = opt32(fl&0x800 != 0, uint32(s[k].CompositionTimeOffset), opt32(fl&0x400 != 0, s[k].Flags, opt32(fl&0x200 != 0, s[k].Size, opt32(fl&0x100 != 0, s[k].Dur, t))))
+//@ spec rec trunTr(fl uint32, s []Sample, n int, t uint64) uint64 = ite(n <= 0, t, trunSample(fl, s, n-1, trunTr(fl, s, n-1, t)))
+//@ spec trunPre(b *TrunBox, cnt uint32, t uint64) uint64 = opt32(b.Flags&0x4 != 0, b.firstSampleFlags, opt32(b.Flags&0x1 != 0, uint32(b.DataOffset), trApp(trApp(t, chU(32, vf(b.Version, b.Flags))), chU(32, cnt))))
+//@ spec trunBody(b *TrunBox, t uint64) uint64 = trunTr(b.Flags, b.Samples, int(uint32(len(b.Samples))), trunPre(b, uint32(len(b.Samples)), t))
+//@ func (*TrunBox).SampleCount
+//@   inline
+// DecodeTrunSR: not proved (append-based loop), see the end of this file.
+//@ func (*TrunBox).EncodeSW
+//@   loop 1 invariant i <= uint32(len(t.Samples))
+//@   ensures[C01] result == nil && sw.(*bits.FixedSliceWriter).accError == nil ==> ghost(sw).tr == trunBody(t, trHdr(old(ghost(sw).tr), uint32(t.Size()), t.Type()))
+//@   loop 1 invariant sw.(*bits.FixedSliceWriter).accError == nil ==> ghost(sw).tr == trunTr(t.Flags, t.Samples, int(i), trunPre(t, uint32(len(t.Samples)), trHdr(old(ghost(sw).tr), uint32(t.Size()), t.Type())))
+
+// ---- tref type boxes (hint, cdsc, ...): a table of track IDs
+//@ spec rec trefIDs(ids []uint32, n int, t uint64) uint64 = ite(n <= 0, t, trApp(trefIDs(ids, n-1, t), chU(32, ids[n-1])))
+//@ spec trefTypeBody(b *TrefTypeBox, t uint64) uint64 = trefIDs(b.TrackIDs, len(b.TrackIDs), t)
+//@ func DecodeTrefTypeSR
+//@   ensures[C01] result1 == nil && sr.(*bits.FixedSliceReader).err == nil ==> ghost(sr).tr == trefTypeBody(result0.(*TrefTypeBox), old(ghost(sr).tr))
+//@   loop 1 invariant 0 <= i && len(b.TrackIDs) == nrIds
+//@   loop 1 invariant sr.(*bits.FixedSliceReader).err == nil ==> ghost(sr).tr == trefIDs(b.TrackIDs, i, old(ghost(sr).tr))
+//@ func (*TrefTypeBox).EncodeSW
+//@   ensures[C01] result == nil && sw.(*bits.FixedSliceWriter).accError == nil ==> ghost(sw).tr == trefTypeBody(b, trHdr(old(ghost(sw).tr), uint32(b.Size()), b.Type()))
+//@   loop 1 invariant idx(1) <= len(b.TrackIDs)
+//@   loop 1 invariant sw.(*bits.FixedSliceWriter).accError == nil ==> ghost(sw).tr == trefIDs(b.TrackIDs, idx(1), trHdr(old(ghost(sw).tr), uint32(b.Size()), b.Type()))
+
+// ---- unknown boxes: the payload as one byte chunk
+//@ spec unknownBody(b *UnknownBox, t uint64) uint64 = trApp(t, chBytes(b.notDecoded))
+//@ func DecodeUnknownSR
+//@   ensures[C01] result1 == nil && sr.(*bits.FixedSliceReader).err == nil ==> ghost(sr).tr == unknownBody(result0.(*UnknownBox), old(ghost(sr).tr))
+//@ func (*UnknownBox).EncodeSW
+//@   ensures[C01] result == nil && sw.(*bits.FixedSliceWriter).accError == nil ==> ghost(sw).tr == unknownBody(b, trHdr(old(ghost(sw).tr), uint32(b.Size()), b.Type()))
+
+// ---- vmhd
+// (value-parameter forms: the decoder's b is a struct variable, not a pointer)
+//@ spec vmhdPreV(ver byte, fl uint32, gm uint16, t uint64) uint64 = trApp(trApp(t, chU(32, vf(ver, fl))), chU(16, gm))
+//@ spec vmhdColV(c0 uint16, c1 uint16, c2 uint16, k int, t uint64) uint64 = ite(k <= 0, t, ite(k == 1, trApp(t, chU(16, c0)), ite(k == 2, trApp(trApp(t, chU(16, c0)), chU(16, c1)), trApp(trApp(trApp(t, chU(16, c0)), chU(16, c1)), chU(16, c2)))))
+//@ spec vmhdBody(b *VmhdBox, t uint64) uint64 = vmhdColV(b.OpColor[0], b.OpColor[1], b.OpColor[2], 3, vmhdPreV(b.Version, b.Flags, b.GraphicsMode, t))
+//@ func DecodeVmhdSR
+//@   ensures[C01] result1 == nil && sr.(*bits.FixedSliceReader).err == nil ==> ghost(sr).tr == vmhdBody(result0.(*VmhdBox), old(ghost(sr).tr))
+//@   loop 1 invariant 0 <= i && i <= 3
+//@   loop 1 invariant sr.(*bits.FixedSliceReader).err == nil ==> ghost(sr).tr == vmhdColV(b.OpColor[0], b.OpColor[1], b.OpColor[2], i, vmhdPreV(b.Version, b.Flags, b.GraphicsMode, old(ghost(sr).tr)))
+//@ func (*VmhdBox).EncodeSW
+//@   ensures[C01] result == nil && sw.(*bits.FixedSliceWriter).accError == nil ==> ghost(sw).tr == vmhdBody(b, trHdr(old(ghost(sw).tr), uint32(b.Size()), b.Type()))
+//@   loop 1 invariant 0 <= i && i <= 3
+//@   loop 1 invariant sw.(*bits.FixedSliceWriter).accError == nil ==> ghost(sw).tr == vmhdColV(b.OpColor[0], b.OpColor[1], b.OpColor[2], i, vmhdPreV(b.Version, b.Flags, b.GraphicsMode, trHdr(old(ghost(sw).tr), uint32(b.Size()), b.Type())))
+
+// ---- vpcC
+// An empty CodecInitData is not read by the decoder but written (as zero bytes) by the encoder: appending an empty byte
+// chunk does not change a trace (assumed for that one chunk, true of byte strings).
+//@ spec vppcPre(b *VppCBox, t uint64) uint64 = trApp(trApp(trApp(trApp(trApp(trApp(trApp(trApp(t, chU(32, vf(b.Version, b.Flags))), chU(8, b.Profile)), chU(8, b.Level)), chU(8, (b.BitDepth<<4)|(b.ChromaSubsampling<<1)|b.VideoFullRangeFlag)), chU(8, b.ColourPrimaries)), chU(8, b.TransferCharacteristics)), chU(8, b.MatrixCoefficients)), chU(16, uint16(len(b.CodecInitData))))
+//@ spec vppcBody(b *VppCBox, t uint64) uint64 = ite(len(b.CodecInitData) == 0, vppcPre(b, t), trApp(vppcPre(b, t), chBytes(b.CodecInitData)))
+//@ func DecodeVppCSR
+//@   ensures[C01] result1 == nil && sr.(*bits.FixedSliceReader).err == nil ==> ghost(sr).tr == vppcBody(result0.(*VppCBox), old(ghost(sr).tr))
+//@ func (*VppCBox).EncodeSW
+//@   assumes len(b.CodecInitData) == 0 ==> forall t uint64 :: trApp(t, chBytes(b.CodecInitData)) == t
+//@   ensures[C01] result == nil && sw.(*bits.FixedSliceWriter).accError == nil ==> ghost(sw).tr == vppcBody(b, trHdr(old(ghost(sw).tr), uint32(b.Size()), b.Type()))
+
+// ---- wvtt leaf boxes: one string filling the payload
+//@ spec vttCBody(b *VttCBox, t uint64) uint64 = trApp(t, chBytes(b.Config))
+//@ func DecodeVttCSR
+//@   ensures[C01] result1 == nil && sr.(*bits.FixedSliceReader).err == nil ==> ghost(sr).tr == vttCBody(result0.(*VttCBox), old(ghost(sr).tr))
+//@ func (*VttCBox).EncodeSW
+//@   ensures[C01] result == nil && sw.(*bits.FixedSliceWriter).accError == nil ==> ghost(sw).tr == vttCBody(b, trHdr(old(ghost(sw).tr), uint32(b.Size()), b.Type()))
+
+//@ spec vlabBody(b *VlabBox, t uint64) uint64 = trApp(t, chBytes(b.SourceLabel))
+//@ func DecodeVlabSR
+//@   ensures[C01] result1 == nil && sr.(*bits.FixedSliceReader).err == nil ==> ghost(sr).tr == vlabBody(result0.(*VlabBox), old(ghost(sr).tr))
+//@ func (*VlabBox).EncodeSW
+//@   ensures[C01] result == nil && sw.(*bits.FixedSliceWriter).accError == nil ==> ghost(sw).tr == vlabBody(b, trHdr(old(ghost(sw).tr), uint32(b.Size()), b.Type()))
+
+//@ spec vsidBody(b *VsidBox, t uint64) uint64 = trApp(t, chU(32, b.SourceID))
+//@ func DecodeVsidSR
+//@   ensures[C01] result1 == nil && sr.(*bits.FixedSliceReader).err == nil ==> ghost(sr).tr == vsidBody(result0.(*VsidBox), old(ghost(sr).tr))
+//@ func (*VsidBox).EncodeSW
+//@   ensures[C01] result == nil && sw.(*bits.FixedSliceWriter).accError == nil ==> ghost(sw).tr == vsidBody(b, trHdr(old(ghost(sw).tr), uint32(b.Size()), b.Type()))
+
+//@ spec ctimBody(b *CtimBox, t uint64) uint64 = trApp(t, chBytes(b.CueCurrentTime))
+//@ func DecodeCtimSR
+//@   ensures[C01] result1 == nil && sr.(*bits.FixedSliceReader).err == nil ==> ghost(sr).tr == ctimBody(result0.(*CtimBox), old(ghost(sr).tr))
+//@ func (*CtimBox).EncodeSW
+//@   ensures[C01] result == nil && sw.(*bits.FixedSliceWriter).accError == nil ==> ghost(sw).tr == ctimBody(b, trHdr(old(ghost(sw).tr), uint32(b.Size()), b.Type()))
+
+//@ spec idenBody(b *IdenBox, t uint64) uint64 = trApp(t, chBytes(b.CueID))
+//@ func DecodeIdenSR
+//@   ensures[C01] result1 == nil && sr.(*bits.FixedSliceReader).err == nil ==> ghost(sr).tr == idenBody(result0.(*IdenBox), old(ghost(sr).tr))
+//@ func (*IdenBox).EncodeSW
+//@   ensures[C01] result == nil && sw.(*bits.FixedSliceWriter).accError == nil ==> ghost(sw).tr == idenBody(b, trHdr(old(ghost(sw).tr), uint32(b.Size()), b.Type()))
+
+//@ spec sttgBody(b *SttgBox, t uint64) uint64 = trApp(t, chBytes(b.Settings))
+//@ func DecodeSttgSR
+//@   ensures[C01] result1 == nil && sr.(*bits.FixedSliceReader).err == nil ==> ghost(sr).tr == sttgBody(result0.(*SttgBox), old(ghost(sr).tr))
+//@ func (*SttgBox).EncodeSW
+//@   ensures[C01] result == nil && sw.(*bits.FixedSliceWriter).accError == nil ==> ghost(sw).tr == sttgBody(b, trHdr(old(ghost(sw).tr), uint32(b.Size()), b.Type()))
+
+//@ spec paylBody(b *PaylBox, t uint64) uint64 = trApp(t, chBytes(b.CueText))
+//@ func DecodePaylSR
+//@   ensures[C01] result1 == nil && sr.(*bits.FixedSliceReader).err == nil ==> ghost(sr).tr == paylBody(result0.(*PaylBox), old(ghost(sr).tr))
+//@ func (*PaylBox).EncodeSW
+//@   ensures[C01] result == nil && sw.(*bits.FixedSliceWriter).accError == nil ==> ghost(sw).tr == paylBody(b, trHdr(old(ghost(sw).tr), uint32(b.Size()), b.Type()))
+
+//@ spec vttaBody(b *VttaBox, t uint64) uint64 = trApp(t, chBytes(b.CueAdditionalText))
+//@ func DecodeVttaSR
+//@   ensures[C01] result1 == nil && sr.(*bits.FixedSliceReader).err == nil ==> ghost(sr).tr == vttaBody(result0.(*VttaBox), old(ghost(sr).tr))
+//@ func (*VttaBox).EncodeSW
+//@   ensures[C01] result == nil && sw.(*bits.FixedSliceWriter).accError == nil ==> ghost(sw).tr == vttaBody(b, trHdr(old(ghost(sw).tr), uint32(b.Size()), b.Type()))
+
+// ---- cdat
+//@ spec cdatBody(b *CdatBox, t uint64) uint64 = trApp(t, chBytes(b.Data))
+//@ func DecodeCdatSR
+//@   ensures[C01] result1 == nil && sr.(*bits.FixedSliceReader).err == nil ==> ghost(sr).tr == cdatBody(result0.(*CdatBox), old(ghost(sr).tr))
+//@ func (*CdatBox).EncodeSW
+//@   ensures[C01] result == nil && sw.(*bits.FixedSliceWriter).accError == nil ==> ghost(sw).tr == cdatBody(b, trHdr(old(ghost(sw).tr), uint32(b.Size()), b.Type()))
+
+// ---- data (ffmpeg/iTunes metadata value): the two 32-bit words before the payload are read and dropped by the decoder
+// and written as 1 and 0 by the encoder (x, y: don't-care parameters)
+//@ spec dataBody(b *DataBox, t uint64, x uint32, y uint32) uint64 = trApp(trApp(trApp(t, chU(32, x)), chU(32, y)), chBytes(b.Data))
+//@ func DecodeDataSR
+//@   ensures[C01] result1 == nil && sr.(*bits.FixedSliceReader).err == nil ==> exists x uint32 :: exists y uint32 :: ghost(sr).tr == dataBody(result0.(*DataBox), old(ghost(sr).tr), x, y)
+//@ func (*DataBox).EncodeSW
+//@   ensures[C01] result == nil && sw.(*bits.FixedSliceWriter).accError == nil ==> ghost(sw).tr == dataBody(b, trHdr(old(ghost(sw).tr), uint32(b.Size()), b.Type()), uint32(1), uint32(0))
+
+// ---- emeb: empty body
+//@ spec emebBody(b *EmebBox, t uint64) uint64 = t
+//@ func DecodeEmebSR
+//@   ensures[C01] result1 == nil && sr.(*bits.FixedSliceReader).err == nil ==> ghost(sr).tr == emebBody(result0.(*EmebBox), old(ghost(sr).tr))
+//@ func (*EmebBox).EncodeSW
+//@   ensures[C01] result == nil && sw.(*bits.FixedSliceWriter).accError == nil ==> ghost(sw).tr == emebBody(b, trHdr(old(ghost(sw).tr), uint32(b.Size()), b.Type()))
+
+// ---- url : optional location string with optional terminator
+//@ spec urlPre(b *URLBox, t uint64) uint64 = trApp(t, chU(32, vf(b.Version, b.Flags)))
+//@ spec urlBody(b *URLBox, t uint64) uint64 = ite(b.NoLocation, urlPre(b, t), ite(b.NoZeroTermination, trApp(urlPre(b, t), chBytes(b.Location)), trApp(trApp(urlPre(b, t), chBytes(b.Location)), chU(8, uint64(0)))))
+//@ func DecodeURLBoxSR
+//@   ensures[C01] result1 == nil && sr.(*bits.FixedSliceReader).err == nil ==> ghost(sr).tr == urlBody(result0.(*URLBox), old(ghost(sr).tr))
+//@ func (*URLBox).EncodeSW
+//@   ensures[C01] result == nil && sw.(*bits.FixedSliceWriter).accError == nil ==> ghost(sw).tr == urlBody(b, trHdr(old(ghost(sw).tr), uint32(b.Size()), b.Type()))
+
+// ---- emib: the 32-bit reserved word after version/flags is read and dropped, written as 0 (x: don't-care parameter)
+//@ spec emibBody(b *EmibBox, t uint64, x uint32) uint64 = trApp(trApp(trApp(trApp(trApp(trApp(trApp(trApp(trApp(trApp(t, chU(32, uint32(b.Version)<<24 | b.Flags)), chU(32, x)), chU(64, uint64(b.PresentationTimeDelta))), chU(32, b.EventDuration)), chU(32, b.Id)), chBytes(b.SchemeIdURI)), chU(8, uint64(0))), chBytes(b.Value)), chU(8, uint64(0))), chBytes(b.MessageData))
+//@ func DecodeEmibSR
+//@   ensures[C01] result1 == nil && sr.(*bits.FixedSliceReader).err == nil ==> exists x uint32 :: ghost(sr).tr == emibBody(result0.(*EmibBox), old(ghost(sr).tr), x)
+//@ func (*EmibBox).EncodeSW
+//@   ensures[C01] result == nil && sw.(*bits.FixedSliceWriter).accError == nil ==> ghost(sw).tr == emibBody(b, trHdr(old(ghost(sw).tr), uint32(b.Size()), b.Type()), uint32(0))
+
+// ---- silb: table of (scheme_id_uri, value, at_least_one_flag), then other_schemes_flag
+//@ spec flag8(c bool) uint64 = ite(c, uint64(1), uint64(0))
+//@ spec rec silbTr(s []SilbEntry, n int, t uint64) uint64 = ite(n <= 0, t, trApp(trApp(trApp(trApp(trApp(silbTr(s, n-1, t), chBytes(s[n-1].SchemeIdURI)), chU(8, uint64(0))), chBytes(s[n-1].Value)), chU(8, uint64(0))), chU(8, flag8(s[n-1].AtLeastOneFlag))))
+//@ spec silbPre(b *SilbBox, cnt uint32, t uint64) uint64 = trApp(trApp(t, chU(32, uint32(b.Version)<<24 | b.Flags)), chU(32, cnt))
+//@ spec silbBody(b *SilbBox, t uint64) uint64 = trApp(silbTr(b.Schemes, len(b.Schemes), silbPre(b, uint32(len(b.Schemes)), t)), chU(8, flag8(b.OtherSchemesFlag)))
+//@ spec rec silbSz(s []SilbEntry, n int) uint64 = ite(n <= 0, uint64(0), silbSz(s, n-1) + uint64(len(s[n-1].SchemeIdURI) + 1 + len(s[n-1].Value) + 1 + 1))
+//@ func (*SilbBox).Size
+//@   ensures result == 17 + silbSz(b.Schemes, len(b.Schemes))
+//@   assigns nothing
+//@   loop 1 invariant idx(1) <= len(b.Schemes)
+//@   loop 1 invariant size == 16 + silbSz(b.Schemes, idx(1))
+//@ func (*SilbBox).EncodeSW
+//@   ensures[C01] result == nil && sw.(*bits.FixedSliceWriter).accError == nil ==> ghost(sw).tr == silbBody(b, trHdr(old(ghost(sw).tr), uint32(b.Size()), b.Type()))
+//@   loop 1 invariant idx(1) <= len(b.Schemes)
+//@   loop 1 invariant sw.(*bits.FixedSliceWriter).accError == nil ==> ghost(sw).tr == silbTr(b.Schemes, idx(1), silbPre(b, uint32(len(b.Schemes)), trHdr(old(ghost(sw).tr), uint32(b.Size()), b.Type())))
+
+// ---- leva: table of levels, layout by assignment type (low 7 bits of the padding/assignment byte)
+//@ spec levaLvlSz(pa byte) uint64 = ite(pa&0x7f == 0, uint64(9), ite(pa&0x7f == 1, uint64(13), ite(pa&0x7f == 4, uint64(9), uint64(5))))
+//@ spec rec levaSz(s []LevaLevel, n int) uint64 = ite(n <= 0, uint64(0), levaSz(s, n-1) + levaLvlSz(s[n-1].paddingAndAssignmentType))
+//@ func (LevaLevel).Size
+//@   inline
+//@ func (LevaLevel).AssignmentType
+//@   inline
+//@ func (*LevaBox).Size
+//@   ensures result == 13 + levaSz(b.Levels, len(b.Levels))
+//@   assigns nothing
+//@   loop 1 invariant idx(1) <= len(b.Levels)
+//@   loop 1 invariant size == 13 + levaSz(b.Levels, idx(1))
+//@ spec rec levaLvl(s []LevaLevel, k int, t uint64) uint64 = ite(s[k].paddingAndAssignmentType&0x7f == 0, trApp(trApp(trApp(t, chU(32, s[k].TrackID)), chU(8, s[k].paddingAndAssignmentType)), chU(32, s[k].GroupingType)), ite(s[k].paddingAndAssignmentType&0x7f == 1, trApp(trApp(trApp(trApp(t, chU(32, s[k].TrackID)), chU(8, s[k].paddingAndAssignmentType)), chU(32, s[k].GroupingType)), chU(32, s[k].GroupingTypeParameter)), ite(s[k].paddingAndAssignmentType&0x7f == 4, trApp(trApp(trApp(t, chU(32, s[k].TrackID)), chU(8, s[k].paddingAndAssignmentType)), chU(32, s[k].SubTrackID)), trApp(trApp(t, chU(32, s[k].TrackID)), chU(8, s[k].paddingAndAssignmentType)))))
+//@ spec rec levaTr(s []LevaLevel, n int, t uint64) uint64 = ite(n <= 0, t, levaLvl(s, n-1, levaTr(s, n-1, t)))
+//@ spec levaPre(b *LevaBox, cnt byte, t uint64) uint64 = trApp(trApp(t, chU(32, vf(b.Version, b.Flags))), chU(8, cnt))
+//@ spec levaBody(b *LevaBox, t uint64) uint64 = levaTr(b.Levels, len(b.Levels), levaPre(b, uint8(len(b.Levels)), t))
+//@ func (*LevaBox).EncodeSW
+//@   ensures[C01] result == nil && sw.(*bits.FixedSliceWriter).accError == nil ==> ghost(sw).tr == levaBody(b, trHdr(old(ghost(sw).tr), uint32(b.Size()), b.Type()))
+//@   loop 1 invariant idx(1) <= len(b.Levels)
+//@   loop 1 invariant sw.(*bits.FixedSliceWriter).accError == nil ==> ghost(sw).tr == levaTr(b.Levels, idx(1), levaPre(b, uint8(len(b.Levels)), trHdr(old(ghost(sw).tr), uint32(b.Size()), b.Type())))
+
+// ---- tlou/alou (LoudnessBaseBox): bases, each with a table of measurements
+//@ spec rec loudSz(bs []*LoudnessBase, n int, v1 bool) int = ite(n <= 0, 0, loudSz(bs, n-1, v1) + ite(v1, 8, 7) + len(bs[n-1].Measurements)*3)
+//@ func (*LoudnessBaseBox).Size
+//@   ensures result == uint64(ite(b.Version >= 1, 13, 12) + loudSz(b.LoudnessBases, len(b.LoudnessBases), b.Version >= 1))
+//@   assigns nothing
+//@   loop 1 invariant idx(1) <= len(b.LoudnessBases)
+//@   loop 1 invariant size == ite(b.Version >= 1, 13, 12) + loudSz(b.LoudnessBases, idx(1), b.Version >= 1)
+//@ spec rec loudMeas(ms []LoudnessMeasurement, n int, t uint64) uint64 = ite(n <= 0, t, trApp(trApp(trApp(loudMeas(ms, n-1, t), chU(8, ms[n-1].MethodDefinition)), chU(8, ms[n-1].MethodValue)), chU(8, (ms[n-1].MeasurementSystem<<4)|(0x0f&ms[n-1].Reliability))))
+//@ spec loudHd5(l *LoudnessBase, t uint64) uint64 = trApp(trApp(trApp(trApp(t, chU(16, (uint16(l.DownmixID)<<6)|uint16(0x3f&l.DRCSetID))), chU(24, ((uint32(l.BsSamplePeakLevel)<<12)|uint32(0x0fff&l.BsTruePeakLevel))&0xffffff)), chU(8, (l.MeasurementSystemForTP<<4)|(0x0f&l.ReliabilityForTP))), chU(8, uint8(len(l.Measurements))))
+//@ spec rec loudHd(bs []*LoudnessBase, k int, v1 bool, t uint64) uint64 = ite(v1, loudHd5(bs[k], trApp(t, chU(8, 0x3f&bs[k].EQSetID))), loudHd5(bs[k], t))
+//@ spec rec loudBases(bs []*LoudnessBase, n int, v1 bool, t uint64) uint64 = ite(n <= 0, t, loudMeas(bs[n-1].Measurements, len(bs[n-1].Measurements), loudHd(bs, n-1, v1, loudBases(bs, n-1, v1, t))))
+//@ spec loudPre(b *LoudnessBaseBox, cnt uint8, t uint64) uint64 = ite(b.Version >= 1, trApp(trApp(t, chU(32, vf(b.Version, b.Flags))), chU(8, 0x3f&cnt)), trApp(t, chU(32, vf(b.Version, b.Flags))))
+//@ spec loudBody(b *LoudnessBaseBox, t uint64) uint64 = loudBases(b.LoudnessBases, len(b.LoudnessBases), b.Version >= 1, loudPre(b, uint8(len(b.LoudnessBases)), t))
+//@ func (*LoudnessBaseBox).EncodeSW
+//@   ensures[C01] result == nil && sw.(*bits.FixedSliceWriter).accError == nil ==> ghost(sw).tr == loudBody(b, trHdr(old(ghost(sw).tr), uint32(b.Size()), b.Type()))
+//@   loop 1 invariant 0 <= a && a <= len(b.LoudnessBases)
+//@   loop 1 invariant sw.(*bits.FixedSliceWriter).accError == nil ==> ghost(sw).tr == loudBases(b.LoudnessBases, a, b.Version >= 1, loudPre(b, uint8(len(b.LoudnessBases)), trHdr(old(ghost(sw).tr), uint32(b.Size()), b.Type())))
+//@   loop 2 invariant 0 <= a && a < len(b.LoudnessBases) && l == b.LoudnessBases[a] && 0 <= i && i <= len(l.Measurements)
+//@   loop 2 invariant sw.(*bits.FixedSliceWriter).accError == nil ==> ghost(sw).tr == loudMeas(l.Measurements, i, loudHd(b.LoudnessBases, a, b.Version >= 1, loudBases(b.LoudnessBases, a, b.Version >= 1, loudPre(b, uint8(len(b.LoudnessBases)), trHdr(old(ghost(sw).tr), uint32(b.Size()), b.Type())))))
+
+// ---- senc
+// Body trace over the box as it is when written: raw payload while not parsed, otherwise per sample an optional IV and an
+// optional subsample table. (A box without per-sample IVs and without subsample encryption has no per-sample bytes; that
+// case is spelled out because the recursive trace function cannot be folded without induction.)
+//@ spec rec sencSub(ps []SubSamplePattern, n int, t uint64) uint64 = ite(n <= 0, t, trApp(trApp(sencSub(ps, n-1, t), chU(16, ps[n-1].BytesOfClearData)), chU(32, ps[n-1].BytesOfProtectedData)))
+//@ spec rec sencSample(ivs []InitializationVector, subs [][]SubSamplePattern, k int, hasIV bool, useSub bool, t uint64) uint64 = ite(hasIV, ite(useSub, sencSub(subs[k], len(subs[k]), trApp(trApp(t, chBytes(ivs[k])), chU(16, uint16(len(subs[k]))))), trApp(t, chBytes(ivs[k]))), ite(useSub, sencSub(subs[k], len(subs[k]), trApp(t, chU(16, uint16(len(subs[k]))))), t))
+//@ spec rec sencSamples(ivs []InitializationVector, subs [][]SubSamplePattern, n int, hasIV bool, useSub bool, t uint64) uint64 = ite(n <= 0, t, sencSample(ivs, subs, n-1, hasIV, useSub, sencSamples(ivs, subs, n-1, hasIV, useSub, t)))
+//@ spec sencPre(s *SencBox, t uint64) uint64 = trApp(trApp(t, chU(32, vf(s.Version, s.Flags))), chU(32, s.SampleCount))
+//@ spec sencParsed(s *SencBox, n int, t uint64) uint64 = ite(s.perSampleIVSize == 0 && s.Flags&2 == 0, t, sencSamples(s.IVs, s.SubSamples, n, s.perSampleIVSize > 0, s.Flags&2 != 0, t))
+//@ spec sencBody(s *SencBox, t uint64) uint64 = ite(s.readButNotParsed, trApp(sencPre(s, t), chBytes(s.rawData)), sencParsed(s, int(s.SampleCount), sencPre(s, t)))
+
+//@ spec rec sencSz(subs [][]SubSamplePattern, n int, iv uint64, useSub bool) uint64 = ite(n <= 0, uint64(0), sencSz(subs, n-1, iv, useSub) + iv + ite(useSub, 2 + 6*uint64(len(subs[n-1])), uint64(0)))
+//@ func (*SencBox).GetPerSampleIVSize
+//@   inline
+//@ func (*SencBox).calcSize
+//@   ensures result == 16 + sencSz(s.SubSamples, int(s.SampleCount), uint64(int(s.perSampleIVSize)), s.Flags&2 != 0)
+//@   assigns nothing
+//@   loop 1 invariant i <= s.SampleCount
+//@   loop 1 invariant totalSize == 16 + sencSz(s.SubSamples, int(i), uint64(int(s.perSampleIVSize)), s.Flags&2 != 0)
+//@ func (*SencBox).setSubSamplesUsedFlag
+//@   ensures s.Flags == old(s.Flags) || s.Flags == old(s.Flags)|2
+//@   assigns s.Flags
+//@   loop 1 invariant s.Flags == old(s.Flags)
+//@ func (*SencBox).EncodeSWNoHdr
+//@   requires swOKi(sw)
+//@   ensures swOKi(sw)
+//@   ensures sw.(*bits.FixedSliceWriter).accError == nil ==> old(sw.(*bits.FixedSliceWriter).accError) == nil
+//@   assigns sw.(*bits.FixedSliceWriter).off, sw.(*bits.FixedSliceWriter).accError, sw.(*bits.FixedSliceWriter).n, sw.(*bits.FixedSliceWriter).v, sw.(*bits.FixedSliceWriter).buf[:], ghost(sw).tr
+//@   loop 1 invariant swOKi(sw) && (sw.(*bits.FixedSliceWriter).accError == nil ==> old(sw.(*bits.FixedSliceWriter).accError) == nil)
+//@   loop 2 invariant swOKi(sw) && (sw.(*bits.FixedSliceWriter).accError == nil ==> old(sw.(*bits.FixedSliceWriter).accError) == nil)
+//@   ensures[C01] result == nil && sw.(*bits.FixedSliceWriter).accError == nil ==> ghost(sw).tr == sencBody(s, old(ghost(sw).tr))
+//@   loop 1 invariant 0 <= i && i <= int(s.SampleCount)
+//@   loop 1 invariant sw.(*bits.FixedSliceWriter).accError == nil ==> ghost(sw).tr == sencParsed(s, i, sencPre(s, old(ghost(sw).tr)))
+//@   loop 2 invariant 0 <= i && i < int(s.SampleCount) && idx(2) <= len(s.SubSamples[i]) && s.Flags&2 != 0
+//@   loop 2 invariant sw.(*bits.FixedSliceWriter).accError == nil ==> ghost(sw).tr == sencSub(s.SubSamples[i], idx(2), ite(s.perSampleIVSize > 0, trApp(trApp(sencParsed(s, i, sencPre(s, old(ghost(sw).tr))), chBytes(s.IVs[i])), chU(16, uint16(len(s.SubSamples[i])))), trApp(sencParsed(s, i, sencPre(s, old(ghost(sw).tr))), chU(16, uint16(len(s.SubSamples[i]))))))
+//@ func (*SencBox).EncodeSW
+//@   ensures[C01] result == nil && sw.(*bits.FixedSliceWriter).accError == nil ==> ghost(sw).tr == sencBody(s, trHdr(old(ghost(sw).tr), uint32(s.Size()), s.Type()))
+
+// Decoder side. The property's postcondition is
+//   result1 == nil && sr.err == nil ==> ghost(sr).tr == sencBody(result0.(*SencBox), old(ghost(sr).tr))
+// It does NOT hold of the code in two cases, which are excluded below and reported as findings (tests in
+// c01c_findings_test.go): (a) sample_count == 0 with a non-empty rest of the payload (the rest is read, kept in rawData,
+// but never written); (b) sample_count != 0, subsample flag set and no payload after the count (possible with a 16-byte
+// header only): the encoder indexes the empty SubSamples table. An empty rawData chunk is read but not written: appending
+// an empty byte chunk does not change a trace (hypothesis emptyChunk, true of byte strings).
+//@ pred emptyChunk(t uint64, s []byte) = len(s) == 0 ==> trApp(t, chBytes(s)) == t
+//@ pred sencFindingA(s *SencBox) = s.SampleCount == 0 && len(s.rawData) != 0
+//@ pred sencFindingB(s *SencBox) = s.SampleCount != 0 && len(s.rawData) == 0 && s.Flags&2 != 0
+//@ func DecodeSencSR
+//@   ensures[C01] result1 == nil && sr.(*bits.FixedSliceReader).err == nil && !sencFindingA(result0.(*SencBox)) && !sencFindingB(result0.(*SencBox)) && emptyChunk(sencPre(result0.(*SencBox), old(ghost(sr).tr)), result0.(*SencBox).rawData) ==> ghost(sr).tr == sencBody(result0.(*SencBox), old(ghost(sr).tr))
+
+// ---- decoder sides NOT proved (engine: the table loops of these decoders build their slices with append; the automatic
+// frame facts for recursive trace functions cover only loops of the form b.X[i] = sr.Read..()). The clauses that would
+// complete the pairs, with the loop invariants tried, are kept here as text (not active):
+//   func DecodeTrunSR
+//     ensures[C01] result1 == nil && sr.(*bits.FixedSliceReader).err == nil ==> ghost(sr).tr == trunBody(result0.(*TrunBox), old(ghost(sr).tr))
+//     loop 1 invariant len(t.Samples) == int(i) && i <= sampleCount && cap(t.Samples) == int(sampleCount)          (proved)
+//     loop 1 invariant sr.(*bits.FixedSliceReader).err == nil ==> ghost(sr).tr == trunTr(t.Flags, t.Samples, int(i), trunPre(t, sampleCount, old(ghost(sr).tr)))   (inv-init ok, inv-pres unknown; the postcondition follows from it)
+//   func DecodeSilbSR
+//     ensures[C01] result1 == nil && sr.(*bits.FixedSliceReader).err == nil ==> ghost(sr).tr == silbBody(result0.(*SilbBox), old(ghost(sr).tr))
+//       (would fail in any case: flag bytes other than 0/1 are decoded as false and written as 0, see findings)
+//   func DecodeLevaSR
+//     ensures[C01] result1 == nil && sr.(*bits.FixedSliceReader).err == nil ==> ghost(sr).tr == levaBody(result0.(*LevaBox), old(ghost(sr).tr))
+//   func DecodeLoudnessBaseBoxSR
+//     ensures[C01] result1 == nil && sr.(*bits.FixedSliceReader).err == nil ==> ghost(sr).tr == loudBody(result0.(*LoudnessBaseBox), old(ghost(sr).tr))
+//       (would need don't-care parameters: 2 reserved bits of the EQ_set_ID byte and the top 2 bits of the downmix/DRC word are dropped)
